@@ -168,6 +168,7 @@ Definition route_plan (cfg : config) (e : env) (pid : Z) (a : attrs) (t : tattr)
     match a with
     | AHyp token domain recipient hook metadata gas fee_denom fee_amt =>
         if is_ok (tattr_validate t) && is_ok (hyp_validate token domain recipient hook metadata)
+           && is_ok (hyp_fee_validate fee_denom fee_amt)
            && match cfg_hyp_token cfg token with Some origin => String.eqb origin (t_ddenom t) | None => false end
         then Some ([CHypToken token;
                     CHypTransfer (cfg_orbiter_bech cfg) token domain recipient (t_damt t) (opt_str hook) gas fee_denom fee_amt metadata],
@@ -202,8 +203,9 @@ Proof.
   { destruct a as [|token domain rcp hook md gas fd fa| | |]; try discriminate. cbn [andb negb]. intros H.
     apply mbind_ok in H as (u1 & s' & H1 & H). apply lift_ok in H1 as [Hv ->].
     apply mbind_ok in H as (u2 & s' & H2 & H). apply lift_ok in H2 as [Hh ->].
+    apply mbind_ok in H as (u2' & s' & H2' & H). apply lift_ok in H2' as [Hf ->].
     apply mbind_ok in H as (u3 & s' & H3 & H). apply mext_ok in H3.
-    rewrite Hv, Hh. cbn [is_ok andb].
+    rewrite Hv, Hh, Hf. cbn [is_ok andb].
     destruct (cfg_hyp_token cfg token) as [origin|]; [|discriminate].
     destruct (String.eqb origin (t_ddenom t)); [|discriminate]. cbn [negb] in H.
     eexists _, _. split; [reflexivity|].
